@@ -327,3 +327,36 @@ func TestWorkerHangRule(t *testing.T) {
 		}
 	}
 }
+
+// runFreshWorker runs one call in a process of its own (nothing has been initialised in it yet) and returns the response,
+// what the process wrote to stderr (race reports, fatal errors) and how it exited.
+func runFreshWorker(op string, args []string, data []byte, gomaxprocs int, timeout time.Duration) (resp, stderr string, err error) {
+	cmd := exec.Command(os.Args[0], "-test.run", "^TestNothing$")
+	cmd.Env = append(os.Environ(), "VERIF_WORKER=1", fmt.Sprintf("GOMAXPROCS=%d", gomaxprocs), "GOTRACEBACK=single")
+	req, _ := json.Marshal(workerReq{Op: op, Args: args, Data: data})
+	var l [4]byte
+	binary.BigEndian.PutUint32(l[:], uint32(len(req)))
+	cmd.Stdin = bytes.NewReader(append(l[:], req...))
+	var so, se bytes.Buffer
+	cmd.Stdout, cmd.Stderr = &so, &se
+	if err := cmd.Start(); err != nil {
+		return "", "", err
+	}
+	done := make(chan error, 1)
+	go func() { done <- cmd.Wait() }()
+	select {
+	case err = <-done:
+	case <-time.After(timeout):
+		_ = cmd.Process.Kill()
+		<-done
+		return "", se.String(), fmt.Errorf("fresh worker did not finish within %v", timeout)
+	}
+	out := so.Bytes()
+	if len(out) >= 4 {
+		n := int(binary.BigEndian.Uint32(out[:4]))
+		if 4+n <= len(out) {
+			resp = string(out[4 : 4+n])
+		}
+	}
+	return resp, se.String(), err
+}
